@@ -208,13 +208,16 @@ def wire(log):
     for e in log:
         if e["k"] == "pkt":
             pk.setdefault(e["dg"], []).append(e)
-    # "one probe datagram per timeout": the allowance exists from a handle_timer call until the next call that puts in-flight
-    # bytes on the wire (whatever the timer was for: the lenient reading); the endpoint's own probe flag is not consulted
+    # "one probe datagram per timeout": the allowance exists from the moment the endpoint asks for a probe (its probe flag
+    # rises between two transmit calls: a probe timeout fired, or - client only - packets arrived for which it has no keys
+    # yet, RFC 9002 6.2.3) until the next call that puts in-flight bytes on the wire.  A flag that merely *stays* set after
+    # such a call grants nothing.
     credit = {"c": False, "s": False}
+    flag = {"c": False, "s": False}
     for e in log:
-        if e["k"] == "timer":
-            credit[e["ep"]] = True
-        elif e["k"] == "tx":
+        if e["k"] == "tx":
+            if e["st0"]["probe"] and not flag[e["ep"]]:
+                credit[e["ep"]] = True
             infl = 0
             for d in e["dgs"]:
                 ps = pk.get(d["id"], [])
@@ -225,6 +228,7 @@ def wire(log):
                         "closing": e["st"]["state"] in END_STATES or e["st0"]["state"] in END_STATES})
             if infl > 0:
                 credit[e["ep"]] = False
+            flag[e["ep"]] = e["st"]["probe"]
     return out
 
 
